@@ -502,7 +502,9 @@ impl Check for C14 {
                         format!("{}: still damaged after the forced run: {:?}", label, missing),
                     );
                 } else {
-                    let bad = canon::compare_to_reference(&after_files, &reference, Cmp::Canon, false);
+                    // (the cache record is not a binding: it may legitimately carry digests of
+                    // the files it vouches for, timestamps included)
+                    let bad = canon::compare_to_reference(&after_files, &reference, Cmp::Canon, true);
                     if !bad.is_empty() {
                         co.violate(
                             "C14/force-wrong-output".into(),
